@@ -10,7 +10,10 @@ import vlib
 CHECKS = {}
 for _m in pkgutil.iter_modules(vlib.__path__):
     if _m.name != "core":
-        CHECKS.update(getattr(importlib.import_module("vlib." + _m.name), "MANIFEST", {}))
+        try:
+            CHECKS.update(getattr(importlib.import_module("vlib." + _m.name), "MANIFEST", {}))
+        except Exception as e:
+            print("warning: cannot import vlib.%s: %s" % (_m.name, e))
 CHECKS = dict(sorted(CHECKS.items()))
 PENDING = {}
 def main():
